@@ -266,10 +266,11 @@ class TsGraphEdgePropertyMixin:
                 f"Max lag must always be greater than 0, so passed in {lag} value is invalid."
             )
         max_lag = copy(self.max_lag)  # type: ignore
-        self.graph["max_lag"] = lag
 
         # we need to add edges
         if lag > max_lag:
+            self.graph["max_lag"] = lag
+
             # get all non-lag nodes
             non_lag_nodes = self.nodes_at(t=0)  # type: ignore
 
@@ -292,9 +293,11 @@ class TsGraphEdgePropertyMixin:
         # here, we need to remove edges that are at higher lags
         elif max_lag > lag:
             for _lag in range(max_lag, lag, -1):
-                # get all non-lag nodes
-                nodes = self.nodes_at(t=-_lag)  # type: ignore
+                # get all nodes at this lag (``nodes_at`` takes the lag as a positive number)
+                nodes = self.nodes_at(t=_lag)  # type: ignore
                 self.remove_nodes_from(nodes)  # type: ignore
+            # only now shrink the window: removing a node checks its lag against max_lag
+            self.graph["max_lag"] = lag
         return self
 
 
